@@ -222,8 +222,8 @@ def histogram(cases, obss):
     return h
 
 
-LABELS = ["a", "b", "ab", "*", "a*", "*a", "a*b", "**", "xn--a", "xn--*", ""]
-HOSTLABELS = ["a", "b", "ab", "xn--a", "", "A", "aXb", "xn--ab"]
+LABELS = ["a", "b", "ab", "*", "a*", "*a", "a*b", "**", "xn--a", "xn--*", "", "XN--*", "Xn--a*"]
+HOSTLABELS = ["a", "b", "ab", "xn--a", "", "A", "aXb", "xn--ab", "XN--a", "Xn--AB"]
 IPS = ["1.2.3.4", "01.2.3.4", "1.2.3.04", "::1", "[::1]", "0:0:0:0:0:0:0:1", "::0001", "fe80::1%eth0", "[fe80::1%25eth0]",
        "fe80::1", "1.2.3.4 ", "1.2.3", "::ffff:1.2.3.4", "1.2.3.5", "[1.2.3.4]", "256.1.1.1", "::1%", "%", "1.2.3.4%x"]
 
@@ -325,7 +325,7 @@ def cases(rng, tier):
     n = 20000 if tier == "quick" else 300000
     # systematic small ones: one SAN entry over the full alphabet (<= 2 labels) x hosts (<= 2 labels)
     names = [".".join(p) for k in (1, 2) for p in itertools.product(LABELS, repeat=k)]
-    hosts = [".".join(p) for k in (1, 2) for p in itertools.product(["a", "b", "ab", "xn--a", ""], repeat=k)]
+    hosts = [".".join(p) for k in (1, 2) for p in itertools.product(["a", "b", "ab", "xn--a", "", "XN--a", "Xn--AB"], repeat=k)]
     pairs = list(itertools.product(names, hosts))
     if tier == "quick":
         pairs = rng.sample(pairs, 2500)
